@@ -487,9 +487,28 @@ def _short_exc(name, modname):
     return name.replace(modname + ".", "sut.").replace("builtins.", "")
 
 
-def _cmp(ctx, modname, lines, a, b, what, phase):
+def _exc_feature(e) -> str:
+    """Why pickle may fail to carry this exception object: a feature of the exception class, not of the test."""
+    cls = type(e)
+    if "<locals>" in cls.__qualname__:
+        return "function-local-class"
+    try:
+        cls(*e.args)
+    except Exception:  # noqa: BLE001
+        return "constructor-not-callable-with-args"
+    import pickle
+
+    try:
+        pickle.loads(pickle.dumps(e))
+    except Exception:  # noqa: BLE001
+        return "payload-not-picklable"
+    return "plain"
+
+
+def _cmp(ctx, modname, lines, a, b, what, phase, excfeat=None):
     """Compare two summaries (a = in-process, b = subprocess). Returns True if equal."""
     equal = True
+    excfeat = excfeat or {}
     case = {"module": modname, "test": lines, "phase": phase, "how": what}
     if a["timeout"] != b["timeout"]:
         side = "subprocess-only" if b["timeout"] else "in-process-only"
@@ -502,7 +521,7 @@ def _cmp(ctx, modname, lines, a, b, what, phase):
             if ea == eb:
                 continue
             if eb is None:
-                key = f"exceptions:dropped-in-subprocess:{_short_exc(ea, modname)}"
+                key = f"exceptions:dropped-in-subprocess:{excfeat.get(pos) or _short_exc(ea, modname)}"
             elif ea is None:
                 key = f"exceptions:extra-in-subprocess:{_short_exc(eb, modname)}"
             else:
@@ -680,7 +699,8 @@ def _compare_tests(ctx, sp, modname, tests, origin, rng, batch_sizes):
                 if again is not None:
                     s1, sb = again
             ctx.ok(cls=_classes(modname, lines, s1, origin, how), distinct=[modname, lines])
-            if _cmp(ctx, modname, lines, s1, sb, how, "assertion-trace") and not s1["timeout"]:
+            feat = {str(p): _exc_feature(e) for p, e in r1.exceptions.items()}
+            if _cmp(ctx, modname, lines, s1, sb, how, "assertion-trace", feat) and not s1["timeout"]:
                 phase2.append((t, lines, r1))
         if len(ctx.samples) < 3 and grp:
             ctx.sample({"module": modname, "test": grp[0][1][:8], "in_process": {k: grp[0][2][k] for k in ("timeout", "exc", "lines", "branches")}})
